@@ -13,6 +13,7 @@ from symfc.basis_sets import FCBasisSetO2, FCBasisSetO3
 from symfc.solvers.solver_O2 import reshape_nN33_nx_to_N3_n3nx
 from symfc.utils.eig_tools import dot_product_sparse
 from symfc.utils.solver_funcs import get_batch_slice, solve_linear_equation
+from symfc.utils._verif_hooks import verif_int
 
 from .solver_base import FCSolverBase
 
@@ -233,6 +234,7 @@ def prepare_normal_equation_O2O3(
 
     n_batch = (N // 256 + 1) * (n_compr_fc3 // 30000 + 1)
     n_batch = min(N, n_batch)
+    n_batch = min(N, verif_int("SYMFC_VERIF_SOLVER_NBATCH", n_batch))
     begin_batch_atom, end_batch_atom = get_batch_slice(N, N // n_batch)
     begin_batch, end_batch = get_batch_slice(disps.shape[0], batch_size)
 
